@@ -1,5 +1,5 @@
 // C01 — a built graph is exactly the dependency closure of its roots.
-use crate::c15::build_gworld;
+use crate::c15::build_gworld_with_log;
 use crate::common::*;
 use crate::r#gen::*;
 use crate::world::*;
@@ -422,8 +422,27 @@ fn one(i: usize, seed: u64, acc: &mut Acc) {
     };
     acc.eval();
     let ctx = json!({"world": gw.to_json(), "build": cfg.to_json()});
-    let graph = match build_gworld(&gw, &cfg) {
-      Ok(g) => g,
+    let graph = match build_gworld_with_log(&gw, &cfg) {
+      Ok((g, log)) => {
+        // "every specifier being loaded into a single entry": without faults
+        // and registry restarts the loader is asked at most once per
+        // specifier and mode (an asset load may be followed by one module
+        // load of the same specifier)
+        let mut seen: BTreeMap<(String, &'static str, bool), usize> = BTreeMap::new();
+        for e in &log {
+          *seen.entry((e.specifier.clone(), e.cache_setting, e.ensure_cached)).or_default() += 1;
+        }
+        acc.count_n("loader_calls_checked_for_repeats", log.len() as u64);
+        if let Some(((spec, _, _), n)) = seen.iter().find(|(_, n)| **n > 1) {
+          acc.violation(
+            "closure/specifier-loaded-twice",
+            format!("{} was requested from the loader {} times in one fault-free build", spec, n),
+            json!({"ctx": json!({"world": gw.to_json(), "build": cfg.to_json()}),
+              "log": log.iter().map(|e| format!("{}{} {} -> {}", if e.ensure_cached { "ensure_cached " } else { "" }, e.cache_setting, e.specifier, e.answer.chars().take(60).collect::<String>())).collect::<Vec<_>>()}),
+          );
+        }
+        g
+      }
       Err(p) => {
         acc.violation(
           format!("panic/{}", p.signature()),
